@@ -28,6 +28,8 @@ def place(m, T, gdecl, tdecl):
             T["edges"][0]["guard"] = e
         else:
             T["locations"][0]["inv"] = e
+            if m["role"] != "invariant":          # the same invariant on an urgent / a committed location
+                T["locations"][0][m["role"].split("_")[1]] = True
     elif f == "fpassign":
         tgt = {"clock": "x = 1.5", "double": "d = 1.5", "hybrid": "h = 1.5", "intvar": "i = 1"}[m["target"]]
         items = ["i = %d" % k for k in range(m["len"])]
